@@ -229,6 +229,29 @@ def dictTransform (d : List HM) (ksrc kdst : Arg) (x : TArg) : Except String TAr
       | some m => (inv m).transform x
       | none => .error "KeyError"
 
+/-! ## the other access paths of the registry
+
+`get`, `__getitem__` (and `__contains__` where the class defines it) read their key exactly like
+`transform`: a `TransformKey`, or a pair whose components go through `FrameID.from_value` when they
+are strings (`ValueError` for an unknown name); then the plain dictionary is asked. -/
+
+/-- `reg.get(key)`: the registered matrix or `None` -/
+def dictGet (d : List HM) (ksrc kdst : Arg) : Except String (Option HM) := do
+  let k ← transformKey ksrc kdst
+  pure (lookup d k)
+
+/-- `reg[key]`: the registered matrix or `KeyError` -/
+def dictGetItem (d : List HM) (ksrc kdst : Arg) : Except String HM := do
+  let k ← transformKey ksrc kdst
+  match lookup d k with
+  | some m => pure m
+  | none => .error "KeyError"
+
+/-- `key in reg` -/
+def dictContains (d : List HM) (ksrc kdst : Arg) : Except String Bool := do
+  let k ← transformKey ksrc kdst
+  pure (lookup d k).isSome
+
 /-! ## modifying a registry
 
 The registry is a plain dictionary: every query is answered from the contents at the time of the
